@@ -30,5 +30,17 @@ def patchset_ctor3 (n0 n1 n2 : String) (v0 v1 v2 : V) : String :=
             else
               "ok:0,1,2,0,1,2,0,1,2"
 
+/-- `PatchSet.verify` + `PatchSet.apply` (source sha256 b4a1fb75be305613…) on a patch set listing two algorithms, recorded digests `r0` (sha256), `r1` (md5), digests
+of the given workspace `c0`, `c1`: outcome of `verify`, then of `apply` (`"ok"` = returned — for `apply`: the JSON patch applied to a copy, the
+workspace itself untouched; `"verification"` = `PatchSetVerificationError`) -/
+def patchset_verify2 (c0 c1 r0 r1 : String) : String :=
+  if c0 = r0 then
+    if c1 = r1 then
+      "ok,ok"
+    else
+      "verification,verification"
+  else
+    "verification,verification"
+
 end
 end Pyhf.Gen
